@@ -744,6 +744,95 @@ pub fn info(args: &Args) -> i32 {
     0
 }
 
+/// spec -> impl for Positions.tla: streams in which a maximal match starts exactly at a
+/// critical plaintext position and a short match follows it, written by zlib at lazy levels.
+/// A case counts as realised only if the parse really has a 258-byte token starting there.
+pub fn critical_positions(args: &Args) -> i32 {
+    quiet_panics();
+    let txt = std::fs::read_to_string(args.req("in")).unwrap();
+    let v: Value = serde_json::from_str(txt.lines().next().unwrap_or("{}")).unwrap();
+    let positions: Vec<usize> = v["critical"].as_array().map(|a| a.iter().map(|x| x.as_u64().unwrap() as usize).collect()).unwrap_or_default();
+    let mut out = std::io::BufWriter::new(std::fs::File::create(args.req("out")).unwrap());
+    let mut rng = Rng::new(args.num("seed", 1) ^ 0x9051);
+    let mut realised = 0;
+    let mut k = 0;
+    for &p in positions.iter() {
+        for neighbour in [0i64, -1, 1] {
+            let p = (p as i64 + neighbour) as usize;
+            for level in [9, 6] {
+                // text-like filler (a small vocabulary: plenty of ordinary matches, so that the estimator
+                // sees the compressor's habits), 9 bytes that match nothing right before p (a token
+                // boundary at p), the 258-byte copy at p, its first bytes again right behind it (a short
+                // match where the lazy search looks one byte further), and a piece of its interior later
+                let vocab: Vec<Vec<u8>> = (0..150).map(|_| (0..rng.range(2, 9)).map(|_| b'a' + rng.below(26) as u8).collect()).collect();
+                let mut text: Vec<u8> = Vec::new();
+                while text.len() < p + 258 + 2000 {
+                    let wi = rng.below(vocab.len() as u64) as usize; text.extend_from_slice(&vocab[wi]);
+                    text.push(*rng.pick(&[b' ', b' ', b' ', b',', b'.', b'\n']));
+                }
+                let src = p - 1000;
+                for i in 0..9 { text[p - 9 + i] = 0x80 + ((p + i * 7) % 120) as u8; }
+                let x: Vec<u8> = text[src..src + 258].to_vec();
+                text[p..p + 258].copy_from_slice(&x);
+                let short = 3 + (k % 3);
+                text[p + 258..p + 258 + short].copy_from_slice(&x[..short]);
+                text[p + 258 + short] = 0xfe;
+                text[p + 258 + short + 1] = 0xfd;
+                let again = p + 258 + 700;
+                text[again] = 0xfc;
+                text[again + 1..again + 41].copy_from_slice(&x[100..140]);
+                text[again + 41] = 0xfb;
+                let s = gen::zlib_raw(&text, level, 0, 15, 8);
+                let mut is_realised = false;
+                if let Ok(Ok(parse)) = guarded(|| verif::parse(&s)) {
+                    let mut at = 0usize;
+                    'outer: for b in parse.blocks.iter() {
+                        at += b.stored.len();
+                        for t in b.tokens.iter() {
+                            let l = match t { Tok::Lit(_) => 1, Tok::Ref { len, .. } => *len as usize };
+                            if at == p && l == 258 { is_realised = true; break 'outer; }
+                            at += l;
+                            if at > p { break 'outer; }
+                        }
+                    }
+                }
+                if is_realised { realised += 1; }
+                let o = check_stream(&s, None, &mut rng);
+                let id = format!("p{}", k);
+                k += 1;
+                let mut j = outcome_json(&id, &format!("critical-position/{}/zlib:l{}", p, level), &s, &o, !o.viol.is_empty());
+                j["realised"] = json!(is_realised);
+                j["params"] = json!(guarded(|| verif::estimate(&s)).ok().and_then(|r| r.ok()));
+                writeln!(out, "{}", j).unwrap();
+            }
+        }
+    }
+    writeln!(out, "{}", json!({"kind":"summary","cases":k,"realised":realised})).unwrap();
+    0
+}
+
+/// prints what the library's parser makes of one stream (blocks, tokens, plaintext) next to
+/// zlib's inflate output: for looking at a replay file by hand
+pub fn dump(args: &Args) -> i32 {
+    quiet_panics();
+    let bytes = unhex(args.req("hex"));
+    let z = gen::zlib_inflate_raw(&bytes, 1 << 26);
+    println!("zlib: ok={} consumed={} plain={}", z.ok, z.consumed, hex(&z.plain[..z.plain.len().min(400)]));
+    match guarded(|| verif::parse(&bytes)) {
+        Ok(Ok(p)) => {
+            println!("lib:  consumed={} plain={}", p.consumed, hex(&p.plain[..p.plain.len().min(400)]));
+            for (i, b) in p.blocks.iter().enumerate() {
+                println!("block {} type={} hlit={} hdist={} hclen={} ntok={} first tokens {:?}", i, b.block_type, b.hlit, b.hdist, b.hclen,
+                    b.tokens.len(), b.tokens.iter().take(12).collect::<Vec<_>>());
+                println!("   items {:?}", b.items);
+            }
+        }
+        Ok(Err(e)) => println!("lib:  Err {:?}", e),
+        Err(p) => println!("lib:  panic {}", p),
+    }
+    0
+}
+
 /// spec -> impl for the catalogue of MC_Deflate: every production of the
 /// grammar, every way it can fail, and end of input inside every field
 pub fn edge_replay(args: &Args) -> i32 {
